@@ -50,6 +50,9 @@ CONFIG = dict(
         "Rbgp.Wire.UProps.nonvacuous_discard",
     ],
     harness=dict(kind="pt", bin="c05"),
+    # (e2e ..) case lines go to the daemon-side stream (harness/daemon/c05.rs over rig.rs), everything else to the pt binary
+    harnesses=[dict(match=r"^\(e2e ", kind="daemon", test="event::verif_event::c05::verif_main"),
+               dict(match=".", kind="pt", bin="c05")],
     profiles=["debug", "release"],
     profile_in_case=True,
     n_quick=6000, n_thorough=300000, shards=12,
